@@ -67,11 +67,10 @@ Definition repr_half (t : Z) : pystr :=
   let a := Z.abs t in
   (if Z.ltb t 0 then [cMINUS] else []) ++ p_of_Z (Z.div a 2) ++ [cDOT; if Z.even a then 48 else 53].
 
-(* repr(param) for the non-string atoms; str keys go through stringify_element.
-   bytes keys: stringify_param treats them as strings and `"'" in param` raises
-   TypeError, so DeepDiff cannot report below a bytes key at all: [atom_renders]
-   is false on ABytes (the text given is what stringify_path prints). *)
-(* repr of a bytes object (only reachable through stringify_path on parsed b'..' elements) *)
+(* repr(param) for the non-string atoms (str keys go through stringify_element).
+   bytes keys take the repr branch of stringify_param since /repo commit 0fac13b
+   (before it `"'" in param` raised TypeError for them). *)
+(* repr of a bytes object *)
 Definition hex_digit (n : N) : N := if n <? 10 then 48 + n else 87 + n.
 Definition repr_bytes (s : pystr) : pystr :=
   let q := if has_char cSQ s && negb (has_char cDQ s) then cDQ else cSQ in
@@ -91,8 +90,9 @@ Definition repr_atom (a : atom) : pystr :=
   | AStr s => s
   | ABytes s => repr_bytes s
   end.
-Definition atom_renders (a : atom) : bool :=
-  match a with ABytes _ => false | _ => true end.
+(* every atom has a path text (kept for the importing blocks; was false on bytes
+   before /repo commit 0fac13b) *)
+Definition atom_renders (a : atom) : bool := true.
 
 (* ChildRelationship.stringify_param for DictRelationship /
    SubscriptableIterableRelationship (quote_str "'{}'"), before param_repr_format *)
